@@ -158,6 +158,6 @@ Section Stuck.
     delivered R1 s 0 = [] /\ expected kb1 rt [IRec 7%N] 0 = [EK 7%N ([7%N], 0%N)].
   Proof.
     eexists. split; [reflexivity|]. split; [|split; reflexivity].
-    intro a. destruct a as [|a| |i t|i|i|i]; reflexivity.
+    intro a. destruct a as [|a| |i|i t|i|i|i]; reflexivity.
   Qed.
 End Stuck.
